@@ -54,6 +54,9 @@ let dispatch (op : string) (a : string array) : string =
       (match ff with None -> "N" | Some s -> "S" ^ string_of_int (int_of_n s))
       (match ul with None -> "N" | Some s -> "S" ^ string_of_int (int_of_n s))
   | "rs_encode" -> show_out shown (d_rs_encode (sym_of (int_of_string a.(0))) (nlist a.(1)))
+  | "rs_decode" -> (match d_rs_decode (sym_of (int_of_string a.(0))) (nlist a.(1)) with
+      | Ok v -> "ok " ^ shown v | Panic _ -> "panic"
+      | Err TooManyErrors -> "err TooManyErrors" | Err ErrorsOutsideRange -> "err ErrorsOutsideRange" | Err Malfunction -> "err Malfunction")
   | "gf_mulrow" -> let (m, ad) = d_gf_mulrow (n_of_int (int_of_string a.(0))) in shown m ^ " " ^ shown ad
   | "gf_divrow" -> showopts (d_gf_divrow (n_of_int (int_of_string a.(0))))
   | "gf_misc" -> let (l, p) = d_gf_misc in showopts l ^ " " ^ showopts p
